@@ -7,19 +7,19 @@
            design_notes/C26.md), over abstract syntax trees that have the shape of
            mvdan.cc/sh/v3/syntax nodes (k = Go type name, exported field names, zero values
            omitted; literal text is a sequence of characters, names are one-character strings).
-           Meaning(prog) = [out |-> stdout bytes, st |-> exit status, bad |-> "" or the reason
-           why the program is outside the model (InScope / Deterministic)].
-           The evaluator has NAMED DEVIATION switches (set `dev` in the state): with a switch
-           on, the evaluator computes what the current code of interp is known to do instead
-           of what bash does at that point; `trig` records which switches actually changed
-           the behaviour of the run.  The contract is Meaning with dev = {}.
+           Meaning(prog, dev) = [out |-> stdout, st |-> exit status, bad |-> "" or the reason why
+           the program is outside the model (the InScope / Deterministic predicate), trig].
+           The evaluator has NAMED DEVIATION switches (the set `dev`, a subset of AllDevs): with a
+           switch on, the evaluator computes at that point what the current code of interp is
+           known to do instead of what bash does; `trig` records the switches that can have
+           changed the run.  The contract is Meaning(prog, {}).
    Part 3  a program generator: choice sequences (see spec/ShSyntax.tla for the technique:
            Ch, Nd, need) decoded into  prelude ; f() { BODY; echo "inf $?"; } ; MAIN ;
            echo "end $?"  where BODY and MAIN come from one recursive command menu whose
            holes default to `false` (in f) / a call of f (in MAIN), so that the first three
            choices span the interaction matrix  options/traps x failing thing x context.
            The generator also yields the concrete syntax as a token list with layout tokens
-           <SP> <SEP> <HDOC> (instantiated by the Layouts at the end of the module).
+           <SP> <SEP> <BGSEP> <HDOC> (instantiated by the Layouts at the end of the module).
    Part 4  Init/Next, laws checked by TLC on every generated program, vector emission. *)
 EXTENDS Integers, Sequences, FiniteSets, TLC, Json
 
@@ -1008,7 +1008,7 @@ DWord(p, d, inF) ==
 
 \* ---- commands (each menu entry is a statement)
 NLeaf == 36
-NCmd  == 57
+NCmd  == 58
 EchoQ(pre, nm) == SCall(<<LW(W_echo), Wd(<<DQ(<<Lit(pre), PES(nm)>>)>>)>>)     \* echo "pre$nm"
 TrapT == <<"e", "c", "h", "o", " ", "T", "$", "?">>
 TrapE == <<"e", "c", "h", "o", " ", "E", "$", "?">>
@@ -1185,6 +1185,15 @@ DCmdK(c, p, d, inF) ==
                                SCall(<<LW(W_echo), Wd(<<[k |-> "ArithmExp", X |-> BinA("-", [k |-> "UnaryArithm", Op |-> "++", Post |-> TRUE, X |-> LW(<<"x">>)],
                                                                                   Wd(<<PES("x")>>))]>>), Wd(<<PES("x")>>)>>)>>)),
                       <<"{", SP, "x=3", SEP, "echo", SP, "$((x++-$x))", SP, "$x", SEP, "}">>)
+
+    [] c = 57 ->      \* S | { while read l; do echo "p$l"; done; (exit 4); } : the reader takes everything and fails differently
+                 LET a0 == DCmd(p, d - 1, inF)
+                     a == AsCmd(a0) IN
+                 Res(a0.pos, a0.need,
+                     Stm(BinC("|", a.t, Stm(Blk(<<Stm([k |-> "WhileClause", Cond |-> <<SCall(<<LW(W_read), LW(<<"l">>)>>)>>, Do |-> <<EchoQ(<<"p">>, "l")>>]),
+                                                 Stm([k |-> "Subshell", Stmts |-> <<SCall(<<LW(W_exit), LW(<<"4">>)>>)>>])>>)))),
+                     a.r \o <<SP, "|", SP, "{", SP, "while", SP, "read", SP, "l", SEP, "do", SP, "echo", SP, "\"p$l\"", SEP, "done", SEP,
+                             "(", "exit", SP, "4", SEP, ")", SEP, "}">>)
 
 \* statement lists: one statement, optionally followed by a second (simple) one
 DStmts(p, d, inF) ==
